@@ -926,3 +926,35 @@ func respStateEdges(fn *ssa.Function, st string) []ssax.Edge {
 	}
 	return out
 }
+
+// respStateAssume returns the edges that are infeasible when (<*fsm.Response>).State == st is assumed for the whole
+// path: the not-equal edge of every test against st and the equal edge of every test against another constant.
+func respStateAssume(fn *ssa.Function, st string) []ssax.Edge {
+	var out []ssax.Edge
+	for _, cd := range ssax.Conds(fn) {
+		if cd.Op != token.EQL && cd.Op != token.NEQ {
+			continue
+		}
+		for _, pr := range [][2]ssa.Value{{cd.X, cd.Y}, {cd.Y, cd.X}} {
+			s, ok := ssax.ConstString(pr[1])
+			if !ok {
+				continue
+			}
+			ld, ok := ssax.Resolve(pr[0]).(*ssa.UnOp)
+			if !ok {
+				continue
+			}
+			fa, ok := ld.X.(*ssa.FieldAddr)
+			if !ok || ssax.FieldOf(fa) == nil || ssax.FieldOf(fa).Name() != "State" || ssax.OwnerName(fa) != "Response" {
+				continue
+			}
+			eq, _ := cd.EdgeWhere(token.EQL)
+			if s == st {
+				out = append(out, ssax.Edge{From: eq.From, Succ: 1 - eq.Succ})
+			} else {
+				out = append(out, eq)
+			}
+		}
+	}
+	return out
+}
